@@ -131,5 +131,6 @@ Emit ==
 
 \* generator sanity: whatever is emitted is a finished behaviour of the printer
 GenSound == g.ph = "case" => (ph \in {"done", "mutant"} /\ DoneLegal /\ DeviationsCounted)
+GenSoundSample == (g.ph = "case" /\ g.i % 4 = 0) => GenSound
 GenLiterals == g.ph = "doc" => LiteralsReadBack
 =============================================================================
